@@ -11,10 +11,13 @@ def run(tier, seed, replay=None):
     check = Check('C12', tier, seed)
     prove(check, 'theories/Props_C12.v', THEOREMS)
     differential(check, 'C12', 'c12', 'c12', tier, seed, None, 1, 10, replay_text, sample_lines=8, timeout=1800, shards=10 if tier == 'quick' else 16)
+    # the budget itself: the schedule every outage draws from yields exactly the configured number of attempts
+    # (the backoff engine of C13, judged here for the number of attempts only)
+    differential(check, 'C12b', 'backoff', 'c13', tier, seed + 11, None, 100, 2000, extract_between_bars, driver_extra=['count'])
     check.coverage['rule'] = ('each case: in-process server on loopback QUIC; client A (max_attempts 1-3, constant / linear / exponential back-off, step 0/10/40 ms) holds one stream of the '
                               'kind under test, client B the counterpart; the hook closes A\'s connection max_attempts+1..+2 times in a row, after each cut the stream must work again '
                               '(probe message delivered / request answered; every second publisher case has two 9 KiB messages fed but not flushed in the write buffer when the connection is cut, so that the outage is first seen by poll_ready; for the requestor also: while a slowly answered call on the recovered handle is in flight, a clone made before the outages makes its first call since the cut and recovers on its own, then makes another: every call must get its own reply); replier_exhaust: after the cut a squatter binds the topic and A must report too-many-retries; kinds rotate over '
-                              'publisher, subscriber, requestor, replier, replier_exhaust; non-trivial = distinct case line')
+                              'publisher, subscriber, requestor, replier, replier_exhaust; non-trivial = distinct case line ; budget: the back-off engine of C13 (boundary and random configurations, the three setters in any order), judged for the NUMBER of attempts each schedule yields')
     check.coverage['trusted_base'] = TRUSTED_BASE_COMMON + [
         'hook: Client::__verif_close_connection (cargo feature verif-hooks of the selium crate, off by default, add-only)',
         'not modelled: wall-clock sleeps, QUIC handshake/timeouts, ClientConnection::reconnect; observed by the scenarios',
